@@ -79,6 +79,61 @@ def framesCmd (maxSize : Nat) (chunks : List Bytes) : String :=
   let e := match r.err with | none => "none" | some e => errName e
   s!"{if ps.isEmpty then "." else ps} {e}"
 
+/-! ### canonical digests of a chain state (DESIGN §3.2) -/
+
+def sortBytes (l : List Bytes) : List Bytes := l.mergeSort (fun a b => !(bytesLt b a))
+
+def short (b : Bytes) : String := toHex (b.take 8)
+
+def utxoDigest (u : Utxo) : String :=
+  let rows := sortBytes (u.map fun (r, o) => r.hash ++ natToBytes 4 r.index ++ natToBytes 8 o.value ++ o.pk)
+  short (sha256 rows.flatten)
+
+def indexDigest (C : Crypto) (m : Map Nat Block) : String :=
+  let rows := sortBytes (m.map fun (h, b) => natToBytes 8 h ++ b.id C)
+  short (sha256 rows.flatten)
+
+def balanceDigest (p : PKBalances) : String :=
+  let rows := sortBytes (p.map fun (k, bal) =>
+    k ++ (toString bal.value).toUTF8.toList ++ [59] ++ (bal.refs.flatMap fun r => r.hash ++ natToBytes 4 r.index))
+  short (sha256 rows.flatten)
+
+def stateDigest (C : Crypto) (cs : CoinState) (full : Bool) : String :=
+  let head := match cs.current with | some h => toHex h | none => "none"
+  let tips := String.intercalate "," ((sortBytes cs.heads.keys).map toHex)
+  let ids := sortBytes cs.blocks.keys
+  let per := ids.map fun id =>
+    let u := match cs.utxoAt.get? id with | some u => utxoDigest u | none => "missing"
+    let ix := match cs.byHeightAt.get? id with | some m => indexDigest C m | none => "missing"
+    let bal := if full then (match balancesAt C cs id with | .ok p => balanceDigest p | .error _ => "error") else "-"
+    s!"{short id}:{u}:{ix}:{bal}"
+  s!"head={head} tips={tips} n={ids.length} " ++ String.intercalate "|" per
+
+def errKind : Err → String
+  | .validation _ => "validation"
+  | .key _ => "key"
+  | .decode => "decode"
+  | .other _ => "other"
+
+def setParam (p : Params) (name : String) (v : Int) : Option Params :=
+  let n := v.toNat
+  match name with
+  | "retargetInterval" => some { p with retargetInterval := n }
+  | "retargetTimespan" => some { p with retargetTimespan := n }
+  | "maxKnownHeight" => some { p with maxKnownHeight := v }
+  | "maxBlockSize" => some { p with maxBlockSize := n }
+  | "inventorySize" => some { p with inventorySize := n }
+  | "maxFutureBlockTime" => some { p with maxFutureBlockTime := n }
+  | _ => none
+
+def DState.getState (d : DState) (name : String) : CoinState :=
+  match d.states.find? (·.1 == name) with
+  | some (_, cs) => cs
+  | none => CoinState.empty
+
+def DState.putState (d : DState) (name : String) (cs : CoinState) : DState :=
+  { d with states := (name, cs) :: d.states.filter (·.1 != name) }
+
 def step (d : DState) (line : String) : DState × String :=
   let C := d.crypto
   match (line.trimAscii.toString.splitOn " ").filter (· ≠ "") with
@@ -95,6 +150,36 @@ def step (d : DState) (line : String) : DState × String :=
     (d, match ms.toNat? with
       | some m => framesCmd m (chunks.map hx)
       | none => "bad-op")
+  | ["p", name, v] =>
+    (match v.toInt? with
+      | some k => (match setParam d.params name k with
+        | some p => ({ d with params := p }, "ok")
+        | none => (d, "bad-op"))
+      | none => (d, "bad-op"))
+  | ["known", h, id] =>
+    (match h.toNat? with
+      | some k => ({ d with params := { d.params with knownHashes := (k, hx id) :: d.params.knownHashes } }, "ok")
+      | none => (d, "bad-op"))
+  | ["sig", pk, msg, sg] => ({ d with sigs := (hx pk, hx msg, hx sg) :: d.sigs }, "ok")
+  | ["scrypt", pw, salt, o] => ({ d with scrypts := (hx pw, hx salt, hx o) :: d.scrypts }, "ok")
+  | ["new", name] => (d.putState name CoinState.empty, "ok")
+  | ["copy", dst, src] => (d.putState dst (d.getState src), "ok")
+  | ["addnv", dst, src, blk] =>
+    (match Block.ofBytes C (hx blk) with
+      | none => (d, "err decode")
+      | some b =>
+        match addBlockNoValidation C (d.getState src) b with
+        | .ok cs => (d.putState dst cs, "ok")
+        | .error e => (d, "err " ++ errKind e))
+  | ["add", dst, src, blk, now] =>
+    (match Block.ofBytes C (hx blk), now.toInt? with
+      | some b, some t =>
+        match addBlock C d.params (d.getState src) b t with
+        | .ok cs => (d.putState dst cs, "ok")
+        | .error e => (d, "rej " ++ errKind e)
+      | none, _ => (d, "rej decode")
+      | _, none => (d, "bad-op"))
+  | ["digest", name, mode] => (d, stateDigest C (d.getState name) (mode == "full"))
   | _ => (d, "bad-op")
 
 partial def loop (h : IO.FS.Stream) (out : IO.FS.Stream) (d : DState) : IO Unit := do
